@@ -116,6 +116,27 @@ fn name_lines(rng: &mut Rng) -> Vec<String> {
     out.push("echo".to_string());
     out.push("eval".to_string());
     out.push("print\tr1".to_string());
+    // characters that only LOOK like the letters of a name (KELVIN SIGN for k, LONG S for s): not the command
+    for n in NAMES {
+        if n.contains('k') || n.contains('s') {
+            let fake: String = n.chars().map(|c| if c == 'k' { '\u{212A}' } else if c == 's' { '\u{17F}' } else { c }).collect();
+            for arg in ["", "x20", "add x20", "into 2", "list"] {
+                out.push(format!("{} {}", fake, arg).trim_end().to_string());
+            }
+            out.push(format!("{} x20", n.to_uppercase().replace('K', "\u{212A}")));
+        }
+    }
+    // white space other than the blank is not a separator: it belongs to the token it touches
+    for l in ["move r1 5\tjunk", "step\tfoo bar", "break add x20\tx21", "goto x20\t# c", "move r1 5\u{a0}junk", "print r1\u{a0}", "move\tr1 5", "move r1\t5",
+              "step\t", "\tstep", "r\t", "break\tadd x20", "step into\t2", "move r1 5 \t", "print r1\u{3000}x"] {
+        out.push(l.to_string());
+    }
+    // very long argument lists
+    for head in ["print r1", "step", "move r1 5", "break add x20", "registers", "goto x20", "echo"] {
+        for k in [250usize, 256, 300, 1000] {
+            out.push(format!("{}{}", head, " w".repeat(k)));
+        }
+    }
     out
 }
 
